@@ -86,6 +86,7 @@ func init() {
 		r.Decides("every descent that can run under delete is followed by an emptiness test and removal of the emptied child; every removal and every other tree write in the retrieveNode family is gated by a write flag; \"*\" is a wildcard only under GetNode's option; reflect.Value.String() is not used to stringify non-string keys.",
 			"frame preservation (leaves outside the path keep their values), idempotence, the exact subtree removed.")
 		ruleDeletePrune(c, r)
+		ruleDeleteSites(c, r)
 		ruleWriteGated(c, r)
 		ruleWildcardOpt(c, r)
 		ruleReflectString(c, r, c.anchored("C12"))
@@ -298,6 +299,7 @@ func init() {
 		ruleDefaultsCorpus(c, r)
 		ruleGoLiteral(c, r)
 		ruleKeyMember(c, r)
+		ruleDefaultSource(c, r)
 	})
 }
 
